@@ -29,15 +29,38 @@ def _pairs(xs, owner=None):
     return out
 
 
+_ANCHORS = None
+
+
+def loop_anchors():
+    global _ANCHORS
+    if _ANCHORS is None:
+        import json
+        p = os.path.join(os.path.dirname(os.path.dirname(os.path.abspath(__file__))), "loop_anchors.json")
+        try:
+            with open(p) as f:
+                _ANCHORS = json.load(f)
+        except OSError:
+            _ANCHORS = {}
+    return _ANCHORS
+
+
 class FunContract:
     """contract of a function-valued parameter / external callable"""
 
     def __init__(self, short, params=(), requires=(), ensures=(), returns=None, raises=None,
-                 effects=(), effects_before=(), effects_exc=()):
+                 effects=(), effects_before=(), effects_exc=(), exc_info=None, pure_result=None):
         self.short = short
         self.params = list(params)
         self.requires = _pairs(requires)
         self.ensures = _pairs(ensures)
+        # exc_info = (spec of type(e).__name__, spec of str(e)) of the exception the callable raises
+        self.exc_info = exc_info
+        # pure_result: the callable is a deterministic total function of its arguments (usable in spec mode,
+        # e.g. as a sort key)
+        self.pure_result = pure_result
+        if pure_result is not None:
+            self.ensures.append(("pure-result", "result == (%s)" % pure_result))
         self.returns = returns
         self.raises = raises
         self.effects = list(effects)
@@ -60,13 +83,14 @@ def _raises_list(r):
 
 class Contract:
     def __init__(self, key, prop, types=None, returns=None, requires=(), ensures=(), ensures_exc=(),
-                 raises=None, modifies=(), effects=(), loops=None, locals=None, inline=False, funcs=None,
+                 raises=None, modifies=None, effects=(), loops=None, locals=None, inline=False, funcs=None,
                  ghost=None, mode="prove", unroll=None, comps=None, name=None, setup=(), max_paths=None,
                  frame=None, lock=None, replay=None, timeout_ms=None, axioms=(), post_setup=(), pure_result=None, asserts=None, nonlinear=False, unreachable_ok=(),
-                 strict_comps=False, feas_timeout_ms=None, feas_fresh=False):
+                 region=None, sort_facts=True, feas_timeout_ms=None, named_seqs=False,
+                 fs_inv=(), fs_policy=(), fs_opts=None, call_pre=None, witnesses=None, abstract_str_order=False, label="",
+                 strict_comps=False, feas_fresh=False):
         self.key = key
         self.feas_fresh = feas_fresh   # branch-feasibility pre-checks use a fresh solver instead of the incremental one
-        self.feas_timeout_ms = feas_timeout_ms   # budget of one branch-feasibility pre-check (default 400 ms; unknown = feasible)
         self.strict_comps = strict_comps   # execute comprehension bodies once in exec mode: their exceptions count
         self.prop = prop if isinstance(prop, (list, tuple)) else [prop]
         self.short = name or key.split(":", 1)[1]
@@ -76,7 +100,10 @@ class Contract:
         self.ensures = _pairs(ensures, self.short)
         self.ensures_exc = _pairs(ensures_exc)
         self.raises = raises
-        self.modifies = list(modifies)
+        # modifies=None: frame not declared (legacy: callers havoc nothing and the use is listed as an assumption);
+        # a declared list (possibly empty) is *verified* against the body by Verifier.check_frame
+        self.modifies_declared = modifies is not None
+        self.modifies = list(modifies or [])
         self.effects = list(effects)
         self.loops = dict(loops or {})
         self.locals = dict(locals or {})
@@ -96,7 +123,24 @@ class Contract:
         self.post_setup = list(post_setup)
         self.asserts = dict(asserts or {})
         self.nonlinear = nonlinear
+        self.region = region
+        self.sort_facts = sort_facts
+        self.named_seqs = named_seqs
+        self.feas_timeout_ms = feas_timeout_ms   # budget of one branch-feasibility query (unknown counts as feasible: sound)
+        # abstract file system (pyvc/fsmodel.py): crash invariant proved after every effect on the ghost `fs`,
+        # effect policy proved at every effect (spec over fs_op / fs_target), fault-alphabet options
+        self.fs_inv = _pairs(fs_inv)
+        self.fs_policy = _pairs(fs_policy)
+        self.fs_opts = dict(fs_opts or {})
+        # {callee key: [(name, spec)]}: caller-side obligations proved in this function's own environment right
+        # before a modular call it makes to that callee (what the caller must have established by then)
+        self.call_pre = {k: _pairs(v) for k, v in (call_pre or {}).items()}
+        # witnesses = {binder: ["lambda j: <spec expr over the function's locals>", ...]}: candidate witnesses for
+        # `exists_fn(binder, ...)` clauses of this contract (only used when the clause is *proved*)
+        self.witnesses = dict(witnesses or {})
+        self.abstract_str_order = abstract_str_order
         self.unreachable_ok = list(unreachable_ok)
+        self.label = label   # free text shown next to the contract name in reports
         self.pure_result = pure_result
         if pure_result is not None:
             self.ensures.append(("pure-result", "result == (%s)" % pure_result))
@@ -125,10 +169,17 @@ class Registry:
         self.opaques = {}
         self.fclauses = []
         self.assumed = []          # contracts used at call sites but not verified (dependencies)
+        self.callable_uns = {}     # uninterpreted sort name -> funtype name (values of the sort are callables)
+        from .jsontree import TJObj, TJList
+        self.types.declare("JObj", TJObj())   # python-side JSON object model (bounded checks, see jsontree.py)
+        self.types.declare("JList", TJList())
 
     # --- declaration API used by /verif/contracts/*.py
-    def record(self, name, fields, pyclass=None):
+    def record(self, name, fields, pyclass=None, dictlike=False):
+        """frozen record value.  dictlike=True: the value models an (immutable) dict with a fixed universe of string
+        keys -- field k = value of key k, optional bool field has_k = presence (see builtins._rec_dict_key)"""
         t = TRec(name, {k: self.types.parse(v) for k, v in fields.items()}, pyclass)
+        t.dictlike = dictlike
         self.types.declare(name, t)
         return t
 
@@ -148,7 +199,34 @@ class Registry:
             self.types.declare(c, t)
         return t
 
+    def keyrec(self, name, fields):
+        """a python dict with a fixed set of constant string keys, modelled as an (immutable, encodable) *record value* so
+        that it can live in lists/maps and compares with plain z3 datatype equality (cheap under quantifiers; use
+        R.dictshape -- presence bits, python dict equality -- when absent-key values must not influence `==`).
+        A key declared as "k?" may be absent (encoded as Optional: none = absent; a present key with value None is outside
+        the model): d[k] raises KeyError, d.get(k[, dflt]) yields None/dflt, `k in d` is false.  Other keys are always
+        present.  `{**d, "k": v}` yields the declared keyrec whose key set is the union.  Mutation is unsupported."""
+        self._fresh_name(name)
+        fs, opt = {}, set()
+        for k, v in fields.items():
+            t = self.types.parse(v)
+            if k.endswith("?"):
+                k = k[:-1]
+                opt.add(k)
+                t = TOpt(t)
+            fs[k] = t
+        t = TRec(name, fs, None)
+        t.dictshape = True      # (engine flag of this model; `dictlike` is R.record(..., dictlike=True), the has_k-style model)
+        t.optkeys = opt
+        self.types.declare(name, t)
+        return t
+
+    def _fresh_name(self, name):
+        if name in self.types.named and name not in ("K", "V"):
+            raise ValueError("type name %r is declared twice across contract files (names are global)" % name)
+
     def objtype(self, name, fields, cls=None):
+        self._fresh_name(name)
         fs = {}
         for k, v in fields.items():
             fs[k] = v
@@ -159,6 +237,20 @@ class Registry:
 
     def dictrec(self, name, fields):
         t = TDictRec(fields)
+        self.types.declare(name, t)
+        return t
+
+    def mutrec(self, name, fields):
+        """mutable dict-shaped record with fixed string keys that lives *by value* inside maps / lists
+        (e.g. the edge records of the GEL store); see values.TMutRec"""
+        t = TMutRec(name, {k: self.types.parse(v) for k, v in fields.items()})
+        self.types.declare(name, t)
+        return t
+
+    def dictshape(self, name, required=None, optional=None):
+        """dict-shaped record (TDRec): a z3-encodable dict with fixed possible keys; `optional` keys may be absent"""
+        t = TDRec(name, {k: self.types.parse(v) for k, v in (required or {}).items()},
+                  {k: self.types.parse(v) for k, v in (optional or {}).items()})
         self.types.declare(name, t)
         return t
 
@@ -174,9 +266,17 @@ class Registry:
         self.types.declare(name, t)
         return t
 
-    def untype(self, name):
+    def untype(self, name, callable=None, strlike=False):
+        """uninterpreted sort; with callable=<funtype name> its values are opaque callables (storable in
+        lists/tuples) whose calls obey that function contract (`self_fn` names the called value there).
+        strlike=True: the values are python strings that the code only hashes, compares (==, <) and passes through
+        str(): an opaque totally ordered key sort (str(x) is x, isinstance(x, str))."""
         t = TUn(name)
+        if strlike:
+            STRLIKE.add(name)
         self.types.declare(name, t)
+        if callable is not None:
+            self.callable_uns[name] = callable
         return t
 
     def aggregate(self, name, maptype, value_expr):
@@ -220,6 +320,11 @@ class Registry:
                     (isinstance(d, ast.Name) and d.id == "spec") for d in st.decorator_list):
                 self.spec_funcs[st.name] = (st, m)
 
+    def region(self, tag, selector):
+        """name a statement region of a function: selector(FunctionDef) -> list of its statement nodes.
+        A contract with key '<function key>#<tag>' verifies exactly those statements (free variables = `types`)."""
+        frontend.REGION_SELECTORS[tag] = selector
+
     def lemma(self, name, prop, builder):
         self.lemmas.append((name, prop, builder))
 
@@ -231,6 +336,8 @@ class Registry:
 
     def uf(self, name, argtypes, rettype):
         """uninterpreted (ghost) spec function; its defining axioms are given per contract (`axioms=`)"""
+        if name in self.spec_funcs or name in self.ufs or name in self.ghostfuns:
+            raise ValueError("spec name %r is declared twice across contract files (names are global)" % name)
         self.ufs[name] = ([self.types.parse(a) for a in argtypes], self.types.parse(rettype))
 
     def opaque(self, key, specname, argtypes=None, rettype=None):
@@ -248,6 +355,7 @@ class Registry:
 
 
 REG = Registry()
+_BUILTIN_EXC = set(EXC_PARENT)
 
 
 class Verifier:
@@ -263,6 +371,7 @@ class Verifier:
         self.no_if_conversion = bool(os.environ.get("PYVC_NO_IFCONV"))
         self.no_patterns = bool(os.environ.get("PYVC_NO_PATTERNS"))
         self.nonlinear = bool(os.environ.get("PYVC_NONLINEAR"))
+        self.abstract_str_order = False
         self.feas_timeout_ms = 400
         self.solver_s = 0.0
         self.queries = 0
@@ -440,7 +549,9 @@ class Verifier:
         return r
 
     def fs_method(self, I, f, name, args, kw):
-        raise Unsupported("file method %s" % name)
+        """methods of file objects: trusted contracts of the abstract file system (pyvc/fsmodel.py)"""
+        from . import fsmodel
+        return fsmodel.file_method(I, f, name, args, kw)
 
     # ---------------------------------------------------------------- aggregates (ghost sums over maps)
     def _agg_f(self, I, agg, m, val_e):
@@ -521,6 +632,8 @@ class Verifier:
             fn = z3.Function("uf_" + name, *([t.sort() for t in argts] + [rt.sort()]))
 
             def impl(I, args, kw, argts=argts, rt=rt, fn=fn):
+                if any(isinstance(a, VUndef) for a in args):
+                    return VUndef()
                 return rt.wrap(fn(*[unwrap(a, t) for a, t in zip(args, argts)]))
             return VFunc("builtin", name, impl=impl)
         if name in self.reg.ghostfuns:
@@ -546,25 +659,38 @@ class Verifier:
             return VFunc("builtin", name, impl=D.SPEC_FUNCS[name])
         return None
 
+    def _base_class_info(self, ci, b):
+        """ClassInfo of base-class name `b` of repository class `ci` (same module or imported from the repo)"""
+        bi = ci.module.classes.get(b)
+        if bi is None and hasattr(ci.module, "resolve_import"):
+            r = ci.module.resolve_import(b)
+            if r is not None and r[1]:
+                bi = frontend.load_module(r[0], self.repo).classes.get(r[1])
+        return bi
+
+    def _register_exc_class(self, ci, depth=0):
+        """if `ci` derives (through repository classes, possibly imported) from a builtin exception, record its
+        parent in EXC_PARENT and return True"""
+        if ci.name in EXC_PARENT:
+            return True
+        if depth > 20:
+            return False
+        for b in ci.bases:
+            if b in EXC_PARENT:
+                EXC_PARENT[ci.name] = b
+                return True
+            bi = self._base_class_info(ci, b)
+            if bi is not None and self._register_exc_class(bi, depth + 1):
+                EXC_PARENT[ci.name] = bi.name
+                return True
+        return False
+
     def class_value(self, ci):
         t = self.types.named.get(ci.name)
         rec = t if isinstance(t, TRec) else None
         exc_base = None
-        stack = list(ci.bases)
-        seen = set()
-        while stack:
-            b = stack.pop()
-            if b in seen:
-                continue
-            seen.add(b)
-            if b in EXC_PARENT:
-                exc_base = b
-                break
-            bi = ci.module.classes.get(b)
-            if bi is not None:
-                stack.extend(bi.bases)
-        if exc_base is not None and ci.name not in EXC_PARENT:
-            EXC_PARENT[ci.name] = ci.bases[0] if ci.bases[0] in EXC_PARENT or ci.bases[0] in ci.module.classes else exc_base
+        if ci.name not in _BUILTIN_EXC and self._register_exc_class(ci):
+            exc_base = EXC_PARENT[ci.name]
         return VClass(ci.name, ci.node, ci.module, rec=rec, exc_base=exc_base)
 
     def is_exc_class(self, v):
@@ -608,6 +734,11 @@ class Verifier:
                 v = self.module_name(m2, attr, I)
                 if v is not None:
                     return v
+                if rel.endswith("__init__.py"):
+                    # `from . import submodule` / `from pkg import submodule`
+                    sub = os.path.join(os.path.dirname(rel), attr + ".py")
+                    if os.path.exists(os.path.join(self.repo, sub)):
+                        return VModule(name, frontend.load_module(sub, self.repo))
                 return None
             modname, attr, _ = mod.imports[name]
             return self.external(modname, attr)
@@ -665,7 +796,18 @@ class Verifier:
             fc = getattr(t, "fc", None)
             if fc is not None:
                 stmts += list(fc.effects) + list(fc.effects_before) + list(fc.effects_exc)
-        out = set()
+        # ghost traces written by the model hooks of pyvc/externals.py (open/write, private file-name model)
+        out = {"fs_opens", "fs_writes", "rfs"}
+        # ghost state named in a callee contract's `modifies`
+        for c in list(self.reg.contracts.values()) + list(self.reg.variants) + list(self.reg.assumed):
+            for c2 in [c] + [x for x in c.funcs.values() if hasattr(x, "modifies")]:
+                for m in c2.modifies:
+                    try:
+                        r = _root(ast.parse(m.strip(), mode="eval").body)
+                    except SyntaxError:
+                        r = None
+                    if r and r != "self":
+                        out.add(r)
         for st in stmts:
             try:
                 body = ast.parse(st.strip()).body
@@ -680,12 +822,46 @@ class Verifier:
         self._gwn = out
         return out
 
+    def ghost_cut_writes(self, c):
+        """ghost variables written by the `ghost:` statements of contract c's cut points: {cut key: {names}}
+        (assignments, mutator calls, and the first argument of the ghost builtin map_set_all)"""
+        cache = getattr(self, "_gcw", None)
+        if cache is None:
+            cache = self._gcw = {}
+        if id(c) not in cache:
+            from .modset import body_mods, _root
+            out = {}
+            for key, cls in c.asserts.items():
+                names = set()
+                for cl in cls:
+                    if not cl.startswith("ghost:"):
+                        continue
+                    body = ast.parse(cl[6:].strip()).body
+                    ns, paths, calls = body_mods(body)
+                    names |= ns
+                    for p in paths:
+                        r = _root(p)
+                        if r:
+                            names.add(r)
+                    for call in calls:
+                        if isinstance(call.func, ast.Name) and call.func.id == "map_set_all" and call.args:
+                            r = _root(call.args[0])
+                            if r:
+                                names.add(r)
+                if names:
+                    out[key] = names
+            cache[id(c)] = out
+        return cache[id(c)]
+
     # ---------------------------------------------------------------- contracts lookup
     def contract_for_call(self, f, I):
         q = getattr(f, "qual", None)
         if q is None:
             return None
         c = self.contracts.get(q)
+        if self.cur is not None and q in self.cur.funcs:
+            # per-contract override: this contract names the callee contract it relies on (`funcs={key: Contract}`)
+            c = self.cur.funcs[q]
         if c is None or c.inline:
             return None
         if I.spec and c.pure_result is None:
@@ -730,6 +906,20 @@ class Verifier:
             o = loops.index(s)
         except ValueError:
             return None
+        # Loop specifications are written against loop ordinals of the pinned source; loop_anchors.json records the
+        # header text of every such loop.  When the function's loop headers differ from the recorded ones (a loop was
+        # added, removed or reordered), a loop is re-attached to the ordinal that carried the same header text
+        # (k-th occurrence to k-th occurrence); a loop whose header is new has no specification.
+        base = loop_anchors().get(key)
+        if base is not None:
+            cur = [frontend.loop_header(l) for l in loops]
+            if cur != base:
+                h = cur[o]
+                bi = [i for i, x in enumerate(base) if x == h]
+                ci = [i for i, x in enumerate(cur) if x == h]
+                if len(bi) != len(ci):
+                    return None
+                o = bi[ci.index(o)]
         sp = specs.get(o)
         if sp is None:
             return None
@@ -792,13 +982,16 @@ class Verifier:
         self.queries = 0
         saved_to = self.timeout_ms
         saved_nl = self.nonlinear
-        saved_feas = self.feas_timeout_ms
-        if c.feas_timeout_ms:
-            self.feas_timeout_ms = c.feas_timeout_ms
         self.feas_fresh = c.feas_fresh
         self.nonlinear = self.nonlinear or c.nonlinear
+        self.abstract_str_order = bool(getattr(c, 'abstract_str_order', False))
         if c.timeout_ms:
             self.timeout_ms = c.timeout_ms
+        saved_feas = self.feas_timeout_ms
+        self.feas_rlimit = None
+        if getattr(c, "feas_timeout_ms", None):
+            self.feas_timeout_ms = c.feas_timeout_ms
+            self.feas_rlimit = int(c.feas_timeout_ms * float(os.environ.get("PYVC_FEAS_RLIMIT_PER_MS", "1500")))
         mod, cls, node = frontend.find_function(c.key, self.repo)
         limit = c.max_paths or self.max_paths
         try:
@@ -813,6 +1006,12 @@ class Verifier:
                 except Unsupported as u:
                     self.errors.append("unsupported: %s" % u)
                     break
+                except TypeError as u:
+                    if "cannot encode VNaN" not in str(u):
+                        raise
+                    # nan flowing into a real-valued container / parameter: outside the float model (A-REAL): undecided
+                    self.errors.append("unsupported: %s (nan has no encoding in the real-valued float sort)" % u)
+                    break
                 except RecursionError:
                     self.errors.append("recursion limit")
                     break
@@ -820,6 +1019,8 @@ class Verifier:
             self.timeout_ms = saved_to
             self.nonlinear = saved_nl
             self.feas_timeout_ms = saved_feas
+            self.feas_rlimit = None
+            self.abstract_str_order = False
         if self.exits == 0 and not self.errors:
             self.errors.append("vacuous: no path reaches a function exit (contradictory requires?)")
         # reachability guard against vacuous proofs: every statement of the function must be executed on some path
@@ -842,14 +1043,20 @@ class Verifier:
                         collect(getattr(st, f, []) or [])
                     for h in getattr(st, "handlers", []) or []:
                         collect(h.body)
-            collect(node.body)
+            collect(region_body(c, mod, node))
             missing = sorted(want - self.covered - set(x for x in c.unreachable_ok if isinstance(x, int)))
             if missing:
                 self.errors.append("vacuity guard: statements at lines %s of %s are never reached on any explored path "
                                    "(contradictory assumptions / too strong precondition?); list them in unreachable_ok "
                                    "with a reason if intended" % (missing, c.key))
+        if c.mode != "bounded" and self.bounds_hit:
+            # soundness guard: a loop without invariant is unrolled; once the unroll bound is reached the paths with
+            # more iterations are cut, so nothing about them is proved -- never report that as a proof
+            self.errors.append("loop(s) at line(s) %s reached the unroll bound %d without an invariant: paths with more "
+                               "iterations were not explored (undecided, not a proof); give the loop an invariant or "
+                               "declare the contract mode='bounded'" % (sorted(self.bounds_hit), self.unroll_bound))
         return {
-            "key": c.key, "short": c.short, "prop": c.prop, "mode": c.mode,
+            "key": c.key, "short": c.short, "prop": c.prop, "mode": c.mode, "label": c.label,
             "source_sha": frontend.source_hash(mod, node),
             "lines": (node.lineno, node.end_lineno),
             "paths": self.paths, "exits": self.exits, "queries": self.queries,
@@ -870,6 +1077,7 @@ class Verifier:
         ghost_env = Env(None, mod)
         I.ghost_env = ghost_env
         env = Env(ghost_env, mod)
+        I.top_env = env
         try:
             # ghost state
             for gname, (gtype, ginit) in c.ghost.items():
@@ -927,6 +1135,7 @@ class Verifier:
             for nm, src in c.requires:
                 path.assume(I.eval_spec(src, env, assume=True))
             I.old_env = I.snapshot_env(env)
+            I.top_env = env
             self.cur_inputs = I.old_env
             if not prefix:
                 if not path.feasible(z3.BoolVal(True)):
@@ -935,24 +1144,34 @@ class Verifier:
             f = VFunc("ast", node.name, node=node, module=mod)
             f.qual = c.key
             I.fn_stack.append(f)
+            if c.fs_inv:
+                from . import fsmodel
+                fsmodel.check_inv(I, "entry")
             result = None
             exc = None
             if c.mode == "bounded" and c.unroll:
                 self.unroll_bound = c.unroll
             try:
-                I.exec_block(node.body, env)
+                I.exec_block(region_body(c, mod, node), env)
                 result = VNone()
             except ReturnSig as r:
                 result = r.v
             except PyRaise as pr:
                 exc = pr.exc
             self.exits += 1
+            if exc is None or (c.raises is not None and any(exc_is_sub(exc.cls, cls) for cls, _ in c.raises_list())):
+                self.check_frame(c, I, path, inputs, node)
             if exc is not None:
                 self.check_exceptional_exit(c, I, path, env, exc)
             else:
                 if c.returns is not None:
                     result = I.coerce_value(result, self.types.parse(c.returns))
                 for st in c.post_setup:
+                    if st.startswith("call:"):
+                        # follow-up call on the post-state (two-call contracts): an escaping exception is a failed
+                        # obligation `<contract>/post-call:no-exception:<Class>`, not an engine limitation
+                        I.exec_ghost(st[5:], env, extra={"result": result}, raise_obl="%s/post-call:no-exception" % c.short)
+                        continue
                     I.exec_ghost(st, env, extra={"result": result}, skip_unbound=True)
                 for nm, src in c.ensures:
                     phi = I.eval_spec(src, env, extra={"result": result})
@@ -961,6 +1180,65 @@ class Verifier:
             return
         except (BreakSig, ContinueSig):
             self.errors.append("break/continue outside loop")
+
+    def check_frame(self, c, I, path, inputs, node):
+        """soundness of `modifies`: a contract that callers use modularly (call_contract havocs exactly its
+        `modifies`) must not change any other heap location reachable from its parameters.  At every exit of the
+        verified body each such location is compared with its entry snapshot; a difference is the named obligation
+        `<fn>/frame:<path>` (unchanged terms are skipped without a solver query)."""
+        if self.contracts.get(c.key) is not c or c.inline or node.name == "__init__" or not c.modifies_declared:
+            return
+        cov = []
+        for m in c.modifies:
+            try:
+                cov.append(ast.unparse(ast.parse(m.strip(), mode="eval").body))
+            except SyntaxError:
+                cov.append(m)
+
+        def covered(p):
+            return any(p == m or p.startswith(m + ".") or p.startswith(m + "[") for m in cov)
+
+        def same_terms(xs, ys):
+            return all(x is y or (x is not None and y is not None and x.eq(y)) for x, y in zip(xs, ys))
+
+        seen = set()
+
+        def walk(cur, old, p):
+            if covered(p) or cur is None or old is None or id(cur) in seen:
+                return
+            if isinstance(cur, (VObj, VDictRec)):
+                seen.add(id(cur))
+                if type(old) is not type(cur):
+                    path.prove(z3.BoolVal(False), "%s/frame:%s" % (c.short, p), "frame", where="modifies " + ", ".join(cov))
+                    return
+                keys = list(cur.fields)
+                if isinstance(cur, VDictRec) and set(keys) != set(old.fields):
+                    path.prove(z3.BoolVal(False), "%s/frame:%s" % (c.short, p), "frame", where="keys of %s changed" % p)
+                for f in keys:
+                    sub = ("%s.%s" % (p, f)) if isinstance(cur, VObj) else ("%s[%r]" % (p, f))
+                    walk(cur.fields[f], old.fields.get(f), sub)
+                return
+            if isinstance(cur, (VFunc, VClass, VModule, VOpaque, VOptObj)):
+                return
+            try:
+                if isinstance(cur, VSeq) and isinstance(old, VSeq) and same_terms([cur.arr, cur.n], [old.arr, old.n]):
+                    return
+                if isinstance(cur, VMap) and isinstance(old, VMap) and same_terms([cur.dom, cur.val, cur.card], [old.dom, old.val, old.card]) \
+                        and (cur.order is None or same_terms([cur.order.arr], [old.order.arr])):
+                    return
+                if isinstance(cur, VSet) and isinstance(old, VSet) and same_terms([cur.dom, cur.card], [old.dom, old.card]):
+                    return
+                phi = I.eq(cur, old)
+                if isinstance(cur, VMap) and cur.order is not None and isinstance(old, VMap) and old.order is not None:
+                    phi = z3.And(phi, I.eq(VSeq(cur.order.arr, cur.order.n, cur.kt, "list"),
+                                           VSeq(old.order.arr, old.order.n, old.kt, "list")))
+            except Unsupported:
+                return
+            path.prove(phi, "%s/frame:%s" % (c.short, p), "frame", where="not in modifies [%s]" % ", ".join(cov))
+
+        for pname, v in inputs.items():
+            if isinstance(v, (VObj, VDictRec, VSeq, VMap, VSet)):
+                walk(v, I.old_env.lookup(pname), pname)
 
     def check_exceptional_exit(self, c, I, path, env, exc):
         if c.raises is None:
@@ -975,11 +1253,52 @@ class Verifier:
         for cls, cond in allowed:
             if cond is not None and exc_is_sub(exc.cls, cls):
                 path.prove(I.eval_spec(cond, I.old_env), "%s/raises-only-if:%s" % (c.short, cls), "raises", where=cond)
+        # `exc_msg`: the first constructor argument of the escaping exception when it is a string
+        extra = {"exc": exc}
+        if exc.args and isinstance(exc.args[0], VStr):
+            extra["exc_msg"] = exc.args[0]
         for nm, src in c.ensures_exc:
-            path.prove(I.eval_spec(src, env), "%s/post-exc:%s" % (c.short, nm), "post", where=src)
+            path.prove(I.eval_spec(src, env, extra=extra), "%s/post-exc:%s" % (c.short, nm), "post", where=src)
 
 
-def exec_ghost(self, st, env, extra=None, skip_unbound=False):
+def region_body(c, mod, node):
+    """Region contracts: `region=(first, last)` verifies only the consecutive statements of one statement list of
+    the function, from the statement whose source text starts with `first` to the one starting with `last`
+    (both anchors must be unique among the statements of the function; nested defs included).  Live-in locals are
+    declared in `types`; the clauses may mention the locals live at the region end.  Anchors are matched against
+    the source as it is on disk now: a vanished anchor is an error, never a silent pass."""
+    if not c.region:
+        return node.body
+    cached = getattr(c, "_region_cache", None)
+    if cached is not None and cached[0] is node:
+        return cached[1]
+    first, last = c.region
+    hits = []
+
+    def norm(st):
+        return " ".join(mod.segment(st).split())
+
+    def walk(n):
+        for fld in ("body", "orelse", "finalbody"):
+            lst = getattr(n, fld, None)
+            if isinstance(lst, list) and lst and isinstance(lst[0], ast.stmt):
+                starts = [i for i, st in enumerate(lst) if norm(st).startswith(first)]
+                for i in starts:
+                    ends = [j for j in range(i, len(lst)) if norm(lst[j]).startswith(last)]
+                    if ends:
+                        hits.append(lst[i:ends[0] + 1])
+                for st in lst:
+                    walk(st)
+        for h in getattr(n, "handlers", []) or []:
+            walk(h)
+    walk(node)
+    if len(hits) != 1:
+        raise Unsupported("region anchors %r .. %r match %d statement ranges in %s" % (first, last, len(hits), c.key))
+    c._region_cache = (node, hits[0])
+    return hits[0]
+
+
+def exec_ghost(self, st, env, extra=None, skip_unbound=False, raise_obl=None):
     node = ast.parse(st.strip()).body
     e2 = Env(env, env.module)
     if extra:
@@ -991,6 +1310,9 @@ def exec_ghost(self, st, env, extra=None, skip_unbound=False):
     try:
         self.exec_block(node, e2)
     except PyRaise as pr:
+        if raise_obl is not None:
+            self.path.prove(z3.BoolVal(False), "%s:%s" % (raise_obl, pr.exc.cls), "raises", where=st)
+            raise PathEnd("follow-up call raised")
         if pr.exc.cls != "NameError" or not skip_unbound:
             raise Unsupported("ghost statement raised %s: %s" % (pr.exc.cls, st))
         # a ghost statement that mentions a local not bound on this path is skipped
